@@ -277,8 +277,8 @@ def drv_single_cform(ch):
 
 
 def regpair_old_list():
-    """producer -> consumer with BOTH ops in the live partial-evaluator registry (first two configs per consumer op,
-    representative producers)"""
+    """producer -> consumer with BOTH ops in the live partial-evaluator registry (first two configs per consumer op and
+    first primary kind, representative producers)"""
     reg = set(mz.live_alphabet()["registry"])
     out = []
     n_op = {}
@@ -286,8 +286,8 @@ def regpair_old_list():
     for c in mz.CONFIGS:
         if c.op not in reg:
             continue
-        n_op[c.op] = n_op.get(c.op, 0) + 1
-        if n_op[c.op] > 2:
+        n_op[(c.op, _kinds(c)[0])] = n_op.get((c.op, _kinds(c)[0]), 0) + 1
+        if n_op[(c.op, _kinds(c)[0])] > 2:
             continue
         for p in prods:
             k = _compatible(p, c)
@@ -404,7 +404,7 @@ def rulepair_list(with_registry):
 
 def shape3_list(last_registry_only):
     reg = set(mz.live_alphabet()["registry"])
-    firsts = [c for c in mz.CONFIGS if c.op in ("Shape", "Size")]
+    firsts = [c for c in mz.CONFIGS if c.op in ("Shape", "Size") and "F2" in c.kin]   # the chain's x is an F2 value
     mids = [c for c in mz.CONFIGS if any(k in c.kin for k in ("S1", "S0")) and c.op not in ("Shape", "Size")]
     out = []
     for a in firsts:
